@@ -699,6 +699,19 @@ func Extra() []*File {
 	dep := &File{Base: "xdep", SubDir: "v1", PkgName: "xdepv1", Messages: []*Message{
 		{Name: "Meta", Fields: []Field{{Name: "a", Num: 1, Kind: KInt32, Card: Implicit}, {Name: "s", Num: 2, Kind: KString, Card: Implicit}}}}}
 	out = append(out, dep)
+	dep2 := &File{Base: "xdeptwo", SubDir: "v2", PkgName: "xdeptwov2", Proto2: true, Messages: []*Message{
+		{Name: "Tag", Fields: []Field{{Name: "k", Num: 1, Kind: KString, Card: Optional}}}}}
+	out = append(out, dep2)
+	// two foreign packages in one generated file (the import block has an order)
+	out = append(out, &File{Base: "ximporttwo", Imports: []*File{dep, dep2}, Messages: []*Message{
+		{Name: "Both", Fields: []Field{
+			{Name: "meta", Num: 1, Kind: KMessage, Card: Implicit, Msg: "Meta", MsgFile: "xdep"},
+			{Name: "tag", Num: 2, Kind: KMessage, Card: Implicit, Msg: "Tag", MsgFile: "xdeptwo"},
+			{Name: "tags", Num: 3, Kind: KMessage, Card: RepUnpacked, Msg: "Tag", MsgFile: "xdeptwo"}}}}})
+	// several specialname= parameters (the only way to name more than one: protogen splits the parameter at commas)
+	out = append(out, &File{Base: "xsizefield2", ParamV1: "specialname=Size,specialname=Reset", Messages: []*Message{
+		{Name: "Sized", Fields: []Field{{Name: "size", Num: 1, Kind: KInt32, Card: Implicit}, {Name: "name", Num: 2, Kind: KString, Card: Implicit}}},
+	}})
 	out = append(out, &File{Base: "ximport", Imports: []*File{dep}, Messages: []*Message{
 		{Name: "User", Oneofs: []string{"pick"}, Fields: []Field{
 			{Name: "meta", Num: 1, Kind: KMessage, Card: Implicit, Msg: "Meta", MsgFile: "xdep"},
